@@ -215,6 +215,13 @@ def main(argv):
                 run.ob(oid, ENGINE_ERR, 'COMP', 'cpython', detail='native replay does not confirm (rc=%s): %s | %s' % (rc, detail, outp[-300:]))
                 continue
         run.ob(oid, FAILED, 'COMP', 'cpython+z3', detail=detail, witness=rp, confirmed=True, func=mn)
+    # the slice-destination rewrite of ExprAff and slice_rest, from their ASTs (Engine A)
+    try:
+        from checks import C11smt
+        C11smt.ob_smt(run)
+    except Exception as ex:
+        import traceback
+        run.ob('C11:smt:driver', ENGINE_ERR, 'SMT-A', 'pyvc', detail='%s: %s | %s' % (type(ex).__name__, ex, traceback.format_exc()[-400:]))
     run.evaluations = n
     run.distinct = lifted
     mn = set()
